@@ -464,6 +464,18 @@ def scenarios(ctx, facts, tier):
             return 'the earlier driver of r did not stay in place'
         return None
 
+    def s_double_driver_inout():
+        # an in/out pin of a primitive is a driver like any other: on an ordinary (single-driver) wire that already has one it is refused
+        D = Design(facts)
+        a, r = D.wire('a', 2), D.wire('r', 2)
+        D.make('Buf', 'b1', a, r)
+        src = r.attrs.get('source')
+        if not raises(D, lambda: D.make('BidirBuf', 'pad', D.wire('pin', 2), D.wire('pout', 2), D.wire('poe'), r)):
+            return 'an in/out pin of a primitive was accepted as a second driver of the ordinary wire r'
+        if r.attrs.get('source') is not src or src is None:
+            return 'the earlier driver of r did not stay in place'
+        return None
+
     def s_double_driver_same_block():
         D = Design(facts)
         a = D.wire('a', 2)
@@ -590,6 +602,7 @@ def scenarios(ctx, facts, tier):
     attempt('integrity: undriven wire in a later replica with repeated names', s_fault_replica)
     attempt('second driver from another block', s_double_driver)
     attempt('second driver from the same block', s_double_driver_same_block)
+    attempt('in/out pin as second driver of an ordinary wire', s_double_driver_inout)
     attempt('duplicate child name', s_duplicate_child)
     attempt('duplicate wire name', s_duplicate_wire)
     attempt('rename onto an existing name', s_rename('rename', ['a']))
